@@ -21,9 +21,9 @@ TABLE_RULES = [
 ]
 
 DEFAULT_RULES = [
-    Rule('R7:default-map', r'request_data: Default::default\(\),', 'request_data: HashMap::new(),', 1, where='body',
+    Rule('R7:default-map', r'request_data: Default::default\(\),', 'request_data: HashMap::new(),', '*', where='body',
          why='`Default` of (Fnv)HashMap is the empty map (A-hashmap: FnvHashMap behaves as HashMap; the hasher is not modelled)'),
-    Rule('R7:default-delayqueue', r'deadlines: Default::default\(\),', 'deadlines: DelayQueue::new(),', 1, where='body',
+    Rule('R7:default-delayqueue', r'deadlines: Default::default\(\),', 'deadlines: DelayQueue::new(),', '*', where='body',
          why='`Default` of DelayQueue is `DelayQueue::new()` (tokio-util); prelude model: nothing armed'),
 ]
 
